@@ -29,6 +29,8 @@ def instances(tier):
         "avg-two-sources": S(N("S1", "Source", only=()), N("L1", "ILoad", "S1", phases=["a"], only=("iis",)), N("S2", "Source", only=()),
                              N("L2", "RLoad", "S2", only=()), phases=ph),
     }
+    avg["avg-mux-source-changes"] = S(N("S1", "Source", phases=["a"], only=()), N("S2", "Source", only=()), N("C", "Converter", "S2", only=()),
+                                      N("M", "PMux", ["S1", "C"], only=("rs",)), N("L", "ILoad", "M", only=()), phases=ph)
     for sid, sh in avg.items():
         out.append(Instance("C07", "sys_common:s_run", dict(shape=sh, oracle="c07", opts={"energy": True}), name="S/" + sid, uf=True,
                             cover=["solved", "average"], weight=30))
